@@ -679,7 +679,18 @@ func fmtURL(u string, err error) string {
 	return "url " + encB(u)
 }
 
-func (x *executor) step(line string) string {
+// step executes one operation line. Whatever panics inside an operation that has no recover of its own is answered as the
+// observation "fault" for that line: the run goes on, the judges and the comparison see the line.
+func (x *executor) step(line string) (out string) {
+	defer func() {
+		if v := recover(); v != nil {
+			out = "fault"
+		}
+	}()
+	return x.stepInner(line)
+}
+
+func (x *executor) stepInner(line string) string {
 	t := strings.Fields(line)
 	if len(t) == 0 {
 		return ""
@@ -728,7 +739,19 @@ func (x *executor) step(line string) string {
 		if r == nil {
 			return "bad-op no-router"
 		}
-		return protect(func() string { r.Remove(decB(t[2]), decL(t[3])...); return "ok" })
+		return protect(func() string {
+			// the method list is the CALLER's slice (spread with ...): it is handed over with spare capacity and must read
+			// the same after the call
+			ms := decL(t[3])
+			arg := append(make([]string, 0, len(ms)+3), ms...)
+			r.Remove(decB(t[2]), arg...)
+			for i := range ms {
+				if arg[i] != ms[i] {
+					return "ok caller-method-list-modified:" + encL(arg)
+				}
+			}
+			return "ok"
+		})
 	case t[0] == "clean" && len(t) == 3:
 		r := x.routers[atoi(t[1])]
 		if r == nil {
@@ -1115,7 +1138,7 @@ func (x *executor) step(line string) string {
 		if c == nil {
 			return "bad-op"
 		}
-		return x.ctxOp(c, t)
+		return protect(func() string { return x.ctxOp(c, t) }) // a Params accessor that panics is an observation ("fault"), not the end of the run
 	}
 	return "bad-op"
 }
